@@ -3390,6 +3390,8 @@ def main(repo, outdir):
     guard("WrapGen.v", lambda: gen_wrap(pc, f"{repo}/src/pacti/iocontract/iocontract.py"))
     import py2coq_json  # generator for the JSON / dictionary side, in its own module: translator/py2coq_json.py
     guard("JsonGen.v", lambda: py2coq_json.gen_json(repo))
+    import py2coq_compjson  # PolyhedralIoContractCompound.to_dict / from_strings: translator/py2coq_compjson.py
+    guard("JsonCompoundGen.v", lambda: py2coq_compjson.gen_compjson(repo))
     import py2coq_syntax  # generator for the syntax layer (C09): translator/py2coq_syntax.py
     guard("SyntaxGen.v", lambda: py2coq_syntax.gen_syntax(repo))
     from py2coq_termlist import gen_termlist      # generator for PolyhedralTermList: translator/py2coq_termlist.py
@@ -3404,6 +3406,8 @@ def main(repo, outdir):
     guard("TlpGen.v", lambda: gen_tlp(repo))
     import py2coq_grammar  # generator for the STRUCTURE of the pyparsing grammar (C09): translator/py2coq_grammar.py
     guard("GrammarGen.v", lambda: py2coq_grammar.gen_grammar(repo))
+    import py2coq_heap  # generator for the heap-level effect program (C13): translator/py2coq_heap.py
+    guard("HeapGen.v", lambda: py2coq_heap.gen_heap(repo))
     changed = []
     for name, txt in res.items():
         p = os.path.join(outdir, name)
